@@ -1,6 +1,7 @@
 package main
 
 import (
+	"google.golang.org/grpc"
 	"bufio"
 	"bytes"
 	"context"
@@ -319,6 +320,41 @@ func runC20(c *runCtx) {
 			}
 		}
 	}
+	// one large parameter (5 MiB, "every length"): written over HTTP, read back over both protocols, now and (below)
+	// after the restart
+	bigId, bigData := "", []byte(nil)
+	if c.shard == 1%c.nshards {
+		bigId = fmt.Sprintf("big.%d", c.seed)
+		bigData = bytes.Repeat([]byte("0123456789abcdef"), 5*65536)
+		bigData[len(bigData)-1] = 'Z'
+		rp := srv.JSON("POST", "/promises", nil, map[string]any{"id": bigId, "timeout": time.Now().UnixMilli() + 3600_000, "param": map[string]any{"data": bigData}})
+		if rp.Err != nil || rp.Status != 201 {
+			bigId = "" // a server that refuses 5 MiB is within its rights; nothing to read back
+			c.rep.Hit("big-param-refused")
+		}
+	}
+	checkBig := func(stage string) {
+		if bigId == "" {
+			return
+		}
+		c.rep.Hit("big-param-read")
+		res, err := srv.Promises().ReadPromise(ctx, &pb.ReadPromiseRequest{Id: bigId}, grpc.MaxCallRecvMsgSize(64<<20))
+		if err != nil {
+			fail(-2, "roundtrip:big-param:grpc", "%s: the promise %s with a 5 MiB parameter (written over HTTP, answered 201) cannot be read over gRPC: %v", stage, bigId, err)
+		} else if res.Promise.Param == nil || !bytes.Equal(res.Promise.Param.Data, bigData) {
+			fail(-2, "roundtrip:big-param:grpc", "%s: the 5 MiB parameter of %s came back altered over gRPC", stage, bigId)
+		}
+		hr := srv.Do("GET", "/promises/"+bigId, nil, nil)
+		var hv struct {
+			Param struct {
+				Data []byte `json:"data"`
+			} `json:"param"`
+		}
+		if hr.Err != nil || hr.Status != 200 || json.Unmarshal(hr.Body, &hv) != nil || !bytes.Equal(hv.Param.Data, bigData) {
+			fail(-2, "roundtrip:big-param:http", "%s: the 5 MiB parameter of %s came back altered or not at all over HTTP (status %d)", stage, bigId, hr.Status)
+		}
+	}
+	checkBig("after create")
 	for i := 0; i < n; i++ {
 		if i%c.nshards != c.shard {
 			continue
@@ -744,6 +780,7 @@ func runC20(c *runCtx) {
 		c.violate("restart:failed", "the server does not come up again on the same database: "+err.Error(), nil)
 		return
 	}
+	checkBig("after restart")
 	for k, l := range recheck {
 		w := l.w
 		rp := srv.Do("GET", "/promises/"+escPath(w.Id), nil, nil)
